@@ -176,18 +176,20 @@ class ParallelMovPattern(RewritePattern):
                     out = srcs[idx]
                     inp = src_by_dst_type[out.type]
 
-                    while inp.type != out.type:
+                    while inp.type != src_types[idx]:
                         # we know these are ints since input and output are of the same type
                         inp = cast(SSAValue[riscv.IntRegisterType], inp)
                         out = cast(SSAValue[riscv.IntRegisterType], out)
                         nw_out, nw_inp = _insert_swap_ops(rewriter, inp, out)
-                        # after the swap, the input is in the right place, the input's input
-                        # needs to be moved to the new output
-                        results[output_index[nw_inp.type]] = nw_inp
+                        # after the swap, the output register holds its final value and
+                        # the displaced value is in the input's register, which in turn
+                        # needs the value of its own input
+                        results[output_index[nw_out.type]] = nw_out
                         inp = src_by_dst_type[inp.type]
-                        out = nw_out
+                        out = nw_inp
 
-                    results[output_index[src_types[idx]]] = out
+                    # the displaced value has arrived in the last register of the cycle
+                    results[output_index[out.type]] = out
                     continue
 
                 # Break the cycle by using free register
